@@ -120,6 +120,11 @@ def run(prop, tier, replay=None):
     work = os.path.join(harness_dir(), "run")
     os.makedirs(work, exist_ok=True)
     res = os.path.join(work, "%s-%s-%d.json" % (prop, tier, os.getpid()))
+    if replay is not None and prop == "C08":
+        from . import c08
+        c08.replay(out, exe, replay, res)
+        out.evaluations = max(out.evaluations, 1)
+        return out.finish()
     if replay is not None:
         rp = os.path.join(work, "replay-%d.json" % os.getpid())
         json.dump(replay, open(rp, "w"))
